@@ -87,7 +87,9 @@ CLAIMED["C04"] = {
              "start; the five consumers run once per completed round under value != 0 with the single value gvt_phase_run returned; each MPI_Isend "
              "of a message buffer is dominated by the matching stamp-and-count helper for the same destination and each MPI_Mrecv is followed by "
              "exactly one receive count of the matching kind on every path; five memory-order floors on c_b / c_c; reclamation is strictly below "
-             "GVT; both collectives are entered only on the equality side of an RMW-result test. NOT decided: monotonicity and safety of the "
+             "GVT; both collectives are entered only on the equality side of an RMW-result test; the reduction across ranks is MPI_MIN over one "
+             "MPI_DOUBLE per rank and the message count is MPI_SUM over one MPI_UINT32_T per rank, with the C types of the buffers, separate "
+             "non-automatic buffers, and each *_done sibling testing the request its reduction started. NOT decided: monotonicity and safety of the "
              "computed value under all interleavings of the reduction with message traffic, nor its equality across ranks."),
     "note": TRUST + " Floors are derived from the plain data each counter publishes; relaxed counters have no floor.",
 }
@@ -238,7 +240,9 @@ CLAIMED["C02"] = {
              "the event and anti words differ exactly by ANTI, the word exceeds ANTI|PROCESSED (remote recognition), distinct senders get distinct "
              "words and counters move by one; both matchers compare (sender word, sequence number), give up only at the end of their list (nothing "
              "but the end-of-list and identity tests decides 'not found') and every remote event is checked against "
-             "the early anti-messages before processing; cancelled remote buffers are released at GVT only; routing uses lid_to_nid."),
+             "the early anti-messages before processing; cancelled remote buffers are released at GVT only; routing uses lid_to_nid; every MPI "
+             "point-to-point call sends, sizes and receives bytes on MPI_COMM_WORLD, the polling receivers and the blocking data exchange use "
+             "separate tags that their senders match, polling accepts any source, and MPI_THREAD_MULTIPLE is requested and tested."),
     "note": TRUST + " MPI's non-overtaking and progress guarantees are assumed, not checked.",
 }
 
